@@ -155,9 +155,12 @@ func c31Emit(emit func(...string), dots []piecefunc.Dot, args []string) {
 
 func c31GenDots(r *rand.Rand) []piecefunc.Dot {
 	n := 2 + r.Intn(5)
-	if r.Intn(6) == 0 { // long lists: the search loop breaks late, arguments hit interior dots
+	if k := r.Intn(60); k < 10 { // long lists: the search loop breaks late, arguments hit interior dots
 		n = 10 + r.Intn(21)
 		vu.Stat("dots_10_to_30")
+	} else if k == 10 { // very long tables
+		n = 100 + r.Intn(201)
+		vu.Stat("dots_100_to_300")
 	}
 	xs := make([]uint64, 0, n)
 	seen := map[uint64]bool{}
